@@ -366,6 +366,14 @@ class BaseDriverLibrary(BaseAlgorithmLibrary):
             support_sparse_jacobian=self._SUPPORT_SPARSE_JACOBIAN,
             store_jacobian=settings[self.__STORE_JACOBIAN],
         )
+        # The functions are preprocessed only once:
+        # when a previous execution has already preprocessed them,
+        # possibly with another normalization policy,
+        # the driver must work in the space expected by the functions.
+        functions = problem.functions
+        if functions:
+            self._normalize_ds = functions[0].expects_normalized_inputs
+
         # A database contains both shared listeners
         # and listeners specific to a BaseDriverLibrary instance.
         # At execution,
